@@ -17,8 +17,9 @@ import (
 // prefix, flavour 1 runs a 4x faster clock, so the two arms can reach the start
 // time / timeout at different heights.  For each tree five nodes are queried --
 // tip of arm A, tip of arm B, the fork point, the last period boundary below
-// each tip -- in every one of the 5! orders, each order on a fresh BlockChain
-// instance (fresh shared cache), all six deployment slots per query.
+// each tip -- in every one of the 5! orders (quick: four points, 4! orders),
+// each order starting from a BlockChain instance with empty caches, all six
+// deployment slots per query.
 // ---------------------------------------------------------------------------
 
 type unitB struct {
@@ -29,6 +30,7 @@ type unitB struct {
 	K0, K1  int32 // versions of vote 0 / vote 1
 	Thr     uint32
 	Defs    Defs
+	NQ      int // number of query points: 5 = all, 4 = without the boundary below tip A
 }
 
 func perms(n int) [][]int {
@@ -161,7 +163,7 @@ func runUnitB(u unitB, expired func() bool) (mis []misB, sb statsB) {
 
 	mkCase := func(q [5]int, order []int, upto int, slot int, op string) *Case {
 		// the whole (small) tree: prefix + both arms
-		c := &Case{Sub: "fork-query-order", Window: W, Threshold: u.Thr, GenesisTime: T0, SlotBits: slotBits[:], Defs: u.Defs}
+		c := &Case{Sub: "fork-query-order", Window: W, Threshold: u.Thr, GenesisTime: T0, SlotBits: slotBitsInt(), Defs: u.Defs}
 		local := map[int]int{1: -1}
 		var addPath func(n int)
 		addPath = func(n int) {
@@ -202,7 +204,7 @@ func runUnitB(u unitB, expired func() bool) (mis []misB, sb statsB) {
 					continue
 				}
 				tipA, tipB := tips[0][a], tips[fb][b]
-				q := [5]int{tipA, tipB, fp, t.ancestorAt(tipA, bndH), t.ancestorAt(tipB, bndH)}
+				q := [5]int{tipA, tipB, fp, t.ancestorAt(tipB, bndH), t.ancestorAt(tipA, bndH)}
 				var e [5]expT
 				for i := range q {
 					e[i] = expOf(q[i])
@@ -222,17 +224,17 @@ func runUnitB(u unitB, expired func() bool) (mis []misB, sb statsB) {
 				var walk func(v *blockchain.BlockChain, used int)
 				walk = func(v *blockchain.BlockChain, used int) {
 					step := len(order)
-					if step == 5 {
+					if step == u.NQ {
 						sb.orders++
 						return
 					}
 					left := 0
-					for qi := 0; qi < 5; qi++ {
+					for qi := 0; qi < u.NQ; qi++ {
 						if used&(1<<qi) == 0 {
 							left++
 						}
 					}
-					for qi := 0; qi < 5; qi++ {
+					for qi := 0; qi < u.NQ; qi++ {
 						if used&(1<<qi) != 0 {
 							continue
 						}
@@ -265,11 +267,11 @@ func runUnitB(u unitB, expired func() bool) (mis []misB, sb statsB) {
 								}
 								if !reported[k] {
 									reported[k] = true
-									mis = append(mis, misB{k, fmt.Sprintf("fork at height %d, arms to height %d: deploymentState(slot %d) after height %d = %v (err %v), reference %v, as query #%d of order %v over {tipA,tipB,fork,bndA,bndB}",
+									mis = append(mis, misB{k, fmt.Sprintf("fork at height %d, arms to height %d: deploymentState(slot %d) after height %d = %v (err %v), reference %v, as query #%d of order %v over {0:tipA,1:tipB,2:fork,3:boundary below tipB,4:boundary below tipA}",
 										u.F, u.E, s, t.height[n], st(g), err, e[qi].s[s], step, order), mkCase(q, order, step, s, "state")})
 								}
 							}
-							if step == 4 {
+							if step == u.NQ-1 {
 								g, err := vv.VerifC14CalcNextBlockVersion(t.nodes[n])
 								sb.queries++
 								if err != nil || g != e[qi].v {
@@ -286,7 +288,7 @@ func runUnitB(u unitB, expired func() bool) (mis []misB, sb statsB) {
 						order = order[:len(order)-1]
 					}
 				}
-				walk(t.view(u.Defs, u.Thr, tipA), 0)
+				walk(t.view(u.Defs, u.Thr, 0), 0)
 			}
 		}
 		if expired() {
